@@ -573,6 +573,20 @@ func main() {
 	}
 	l = append(l, scenario(scen{name: "2dc/local-ahead-of-global-window/storage-faults", zones: two, alloc: map[string]int{"dc1": 1, "dc2": 2}, pre: 1, dev: 1, tiers: "quick", build: ahead, offsets: map[int]time.Duration{2: 5 * time.Second}}))
 	l = append(l, scenario(scen{name: "2dc/local-ahead-of-global-window/storage-faults@3", zones: two, alloc: map[string]int{"dc1": 1, "dc2": 2}, pre: 3, dev: 2, tiers: "thorough", build: ahead, offsets: map[int]time.Duration{2: 5 * time.Second}}))
+	// a synchronised MaxTS lands beyond what is left of dc2's window but less than a whole save
+	// interval ahead of its time: the window has to be extended before the memory moves
+	midJump := func(w *world) ([]string, []func()) {
+		return []string{"dc2+global", "local1"}, []func(){
+			func() {
+				w.update(1, 2*time.Second) // PD leader (clock +1.5 s): global and dc1 at 3.5 s
+				w.update(2, 0)             // dc2 at 2 s, its window ends at 3 s
+				w.request(1, G, 1)
+				w.request(2, "dc2", 1)
+			},
+			func() { w.request(1, "dc1", 1) },
+		}
+	}
+	l = append(l, scenario(scen{name: "2dc/maxts-beyond-rest-of-window", zones: two, alloc: map[string]int{"dc1": 1, "dc2": 2}, pre: 2, tiers: "quick", build: midJump, offsets: map[int]time.Duration{1: 1500 * time.Millisecond}}))
 	// two members want the same allocator leadership: dc2's allocator is led by server 2 and
 	// server 1 campaigns for it as well (its view of the leadership is late)
 	contend := func(w *world) ([]string, []func()) {
